@@ -8,6 +8,7 @@ import (
 	"strings"
 	"unicode"
 	"unicode/utf16"
+	"unicode/utf8"
 	"unsafe"
 
 	"github.com/goccy/go-json/internal/errors"
@@ -70,6 +71,15 @@ func toASCIILower(s string) string {
 	return string(b)
 }
 
+func hasNonASCIICasedRune(s string) bool {
+	for _, r := range s {
+		if r >= utf8.RuneSelf && unicode.SimpleFold(r) != r {
+			return true
+		}
+	}
+	return false
+}
+
 func newStructDecoder(structName, fieldName string, fieldMap map[string]*structFieldSet) *structDecoder {
 	return &structDecoder{
 		fieldMap:         fieldMap,
@@ -108,6 +118,11 @@ func (d *structDecoder) tryOptimize() {
 	fieldMap := map[string]*structFieldSet{}
 	conflicted := map[string]struct{}{}
 	for k, v := range d.fieldMap {
+		if hasNonASCIICasedRune(k) {
+			// the bitmaps fold the ASCII letters only: a key in the other case of such a name needs the map
+			d.isTriedOptimize = true
+			return
+		}
 		key := strings.ToLower(k)
 		if key != k {
 			if key != toASCIILower(k) {
